@@ -306,6 +306,12 @@ fn gen_delegation_method<'s>(
         })
         .collect();
     let core = &generic_idents.crate_idents.core;
+    // `self` is hygienic: the delegating body has to use the receiver's own token, which does not
+    // come from this macro invocation when the trait is (partly) stamped out by `macro_rules!`
+    let self_value = match fn_sig.inputs.first() {
+        Some(syn::FnArg::Receiver(receiver)) => receiver.self_token,
+        _ => syn::token::SelfValue::default(),
+    };
 
     match (&attr.impl_trait, &attr.delegation_kind) {
         (Some(ImplTrait(_, impl_trait_ident)), Some(SpanOpt(Delegate::ByTrait(_), _))) => {
@@ -314,7 +320,7 @@ fn gen_delegation_method<'s>(
                 sig: fn_sig,
                 call: quote! {
                     // TODO: pass additional generic arguments(?)
-                    <#impl_t::Target as #impl_trait_ident<#impl_t>>::#fn_ident(self, #(#arguments),*)
+                    <#impl_t::Target as #impl_trait_ident<#impl_t>>::#fn_ident(#self_value, #(#arguments),*)
                 },
             }
         }
@@ -330,14 +336,14 @@ fn gen_delegation_method<'s>(
             let call = match ref_delegate {
                 RefDelegate::AsRef => {
                     quote! {
-                        <#impl_t as ::#core::convert::AsRef<dyn #impl_trait_ident<#impl_t> #plus_sync>>::as_ref(&*self)
-                            .#fn_ident(self, #(#arguments),*)
+                        <#impl_t as ::#core::convert::AsRef<dyn #impl_trait_ident<#impl_t> #plus_sync>>::as_ref(&*#self_value)
+                            .#fn_ident(#self_value, #(#arguments),*)
                     }
                 }
                 RefDelegate::Borrow => {
                     quote! {
-                        <#impl_t as ::#core::borrow::Borrow<dyn #impl_trait_ident<#impl_t> #plus_sync>>::borrow(&*self)
-                            .#fn_ident(self, #(#arguments),*)
+                        <#impl_t as ::#core::borrow::Borrow<dyn #impl_trait_ident<#impl_t> #plus_sync>>::borrow(&*#self_value)
+                            .#fn_ident(#self_value, #(#arguments),*)
                     }
                 }
             };
@@ -352,14 +358,14 @@ fn gen_delegation_method<'s>(
             trait_fn,
             sig: fn_sig,
             call: quote! {
-                self.as_ref().as_ref().#fn_ident(#(#arguments),*)
+                #self_value.as_ref().as_ref().#fn_ident(#(#arguments),*)
             },
         },
         (None, Some(SpanOpt(Delegate::ByRef(RefDelegate::Borrow), _))) => DelegatingMethod {
             trait_fn,
             sig: fn_sig,
             call: quote! {
-                self.as_ref().borrow().#fn_ident(#(#arguments),*)
+                #self_value.as_ref().borrow().#fn_ident(#(#arguments),*)
             },
         },
         _ => {
@@ -369,9 +375,9 @@ fn gen_delegation_method<'s>(
             );
             let call = if takes_self_by_value {
                 // a by-value receiver hands the application over to the delegate
-                quote! { self.into_inner().#fn_ident(#(#arguments),*) }
+                quote! { #self_value.into_inner().#fn_ident(#(#arguments),*) }
             } else {
-                quote! { self.as_ref().#fn_ident(#(#arguments),*) }
+                quote! { #self_value.as_ref().#fn_ident(#(#arguments),*) }
             };
 
             DelegatingMethod {
